@@ -36,7 +36,8 @@ def plan(tier, seed):
             specs.append({"kind": "stride", "stride": 211 * 4, "n": 3500, "phase": i * 211})
         for i in range(6):
             specs.append({"kind": "programs", "part": i, "of": 6, "years": "sample"})
-        specs.append({"kind": "times", "n": 20000})
+        for i in range(5):
+            specs.append({"kind": "times", "n": 4000})
     else:
         for i in range(64):
             specs.append({"kind": "all", "part": i, "of": 64})
